@@ -113,9 +113,9 @@ Qed.
 
 (* forbid(i,j) is falsified exactly when pigeon i's bits spell j *)
 Theorem forbid_sem a off n m i j : 0 <= off -> 1 <= i <= n -> 0 <= j < 2 ^ bitlength m ->
-  exists c, bm_forbid off n m i j = Some c /\ clause_sat a c = negb (value a off n m i =? j) /\ lits_ok c = true.
+  exists c, vmap_forbid off n m i j = Some c /\ clause_sat a c = negb (value a off n m i =? j) /\ lits_ok c = true.
 Proof.
-  intros Hoff Hi Hj. unfold bm_forbid. destruct (Z.geb_spec j (2 ^ bitlength m)) as [G|G]; [lia|].
+  intros Hoff Hi Hj. unfold vmap_forbid. destruct (Z.geb_spec j (2 ^ bitlength m)) as [G|G]; [lia|].
   destruct (row_bits_len off n m i Hi) as [L1 L2].
   assert (P : forall x, In x (row_bits off n m i) -> 0 < x) by (intros; eapply row_bits_pos; eauto).
   destruct (flips_clause a (row_bits off n m i) P j ltac:(rewrite L1; lia)) as [sg [E1 E2]].
